@@ -573,6 +573,9 @@ CLEANUP_KINDS = {
     "errorf": lambda: [op("errorf", text="from cleanup")],
     "skips": lambda: [op("skip")],
     "nested": lambda: [op("cleanup", body=[op("cleanup", body=[op("ctx", text="in-cleanup")])])],
+    # a teardown that draws from a Custom generator whose function uses its context and cleanups: one more invocation, begun while the enclosing one cleans up
+    "draws_custom": lambda: [draw(g("Custom", elem=g("Int8"), body=[op("ctx", text="custom"), op("cleanup", body=[op("ctx", text="in-cleanup")]),
+                                                                  draw(g("Bool"), "cb"), op("ctx", text="custom")]), "cc")],
     "goexit": lambda: [op("goexit")],       # ends the goroutine without a panic (FailNow of an enclosing testing.T does this)
 }
 ENDINGS = {
@@ -629,6 +632,16 @@ def c10(tier, seed):
                                                        op("cleanup", body=[op("goexit")] if i % 2 else [op("ctx", text="in-cleanup")])]), "c"),
                 op("cleanup", body=[op("goexit")] if i % 2 == 0 else [op("ctx", text="in-cleanup")]), op("cleanup", body=[op("ctx", text="in-cleanup")])]
         out.append(scenario("c10-goexit-%d" % i, {"body": body}, {"checks": 5, "seed": rng.randrange(1, 1 << 64), "nofailfile": "true"}, tag={"ending": "goexit in cleanup"}))
+    # several goroutines of one invocation register cleanups at the same time, dozens each (some scenarios also hold them at rapid's gate
+    # inside Cleanup's critical section): every one of them runs exactly once
+    for i in range(10 if tier == "quick" else 80):
+        k = rng.choice([2, 3, 4, 4])
+        reg = op("go", n=k, ms=rng.choice([5, 15]), val="reg.locked*" if i % 5 else "reg.locked", body=[op("cleanup", body=[] if i % 2 else [op("cleanup", body=[])])])
+        cust = draw(g("Custom", elem=g("Int8"), body=[op("cleanup", body=[op("ctx", text="in-cleanup")]), reg]), "c")
+        body = [op("ctx", text="body"), op("cleanup", body=[op("ctx", text="in-cleanup")])] + ([reg] if i % 3 != 2 else [cust]) + \
+               [op("cleanup", body=CLEANUP_KINDS["plain"]()), draw(g("Int16"), "x", "x")] + ENDINGS[rng.choice(["ret", "threshold", "skip"])]
+        out.append(scenario("c10-goreg-%d" % i, {"body": body}, {"checks": 10, "seed": rng.randrange(1, 1 << 64), "nofailfile": "true", "shrinktime": "0s"},
+                            tag={"ending": "concurrent registration"}))
     # fail-file replay (runs 1/2) and fuzzing go through the same brackets
     for i in range(4 if tier == "quick" else 60):
         body = c10_body(rng) + ENDINGS["threshold"]
